@@ -569,7 +569,7 @@ func (o *qOracle) validateDequeue(step int, prev, next Snap, r resolvedOp, res Q
 	reasons := map[string]bool{}
 	for _, it := range res.Items {
 		if seen[it.ID] {
-			return fail("C03", "same-message-twice", step, "dequeue returned %s twice", it.ID)
+			return fail("C03,C02", "same-message-twice", step, "dequeue returned %s twice (a message is duplicated)", it.ID)
 		}
 		seen[it.ID] = true
 		p, ok := prev[it.ID]
@@ -604,7 +604,7 @@ func (o *qOracle) validateDequeue(step int, prev, next Snap, r resolvedOp, res Q
 			return fail("C03", "not-leased-after-dequeue", step, "dequeued %s stored as %s", it.ID, fmtMsg(n))
 		}
 		if !eqMsg(it, n) {
-			return fail("C03,C07", "returned-differs-from-stored", step, "dequeue returned %s but stored %s", fmtMsg(it), fmtMsg(n))
+			return fail("C03,C07,C02", "returned-differs-from-stored", step, "dequeue returned %s but stored %s", fmtMsg(it), fmtMsg(n))
 		}
 		if n.Attempt != p.Attempt+1 {
 			return fail("C03", "attempt-increment", step, "dequeue of %s moved attempt %d -> %d", it.ID, p.Attempt, n.Attempt)
